@@ -211,12 +211,12 @@ def run(tier, seed):
     ls = open(LAUNCH_HARNESS).read()
     from props.simple import copy_fn
     lq = []
-    slices = ['n == 1', 'n == 2', 'n == 3'] + ['n == 4 and k0 == %d' % k for k in range(4)]
+    slices = ['n == 1', 'n == 2'] + ['n == 3 and k0 == %d' % k for k in range(4)] + ['n == 4 and k0 == %d and k1 == %d' % (a, b) for a in range(4) for b in range(4)]
     if tier != 'quick':
         slices += ['n == 5 and k0 == %d and k1 == %d' % (a, b) for a in range(4) for b in range(4)]
     for i, pre in enumerate(slices):
         new = 'launch_%02d' % i
-        lq.append(Query(new, ls + '\n\n' + copy_fn(ls, 'launch', new, pre), new, 'main', 400 if tier == 'quick' else 1500,
+        lq.append(Query(new, ls + '\n\n' + copy_fn(ls, 'launch', new, pre), new, 'main', 600 if tier == 'quick' else 1500,
                         per_path=60, meta={'fn': 'launch'}, label='S'))
     lq.append(Query('launch__twin', ls + '\n\n' + copy_fn(ls, 'launch', 'launch__twin', 'n == 2', twin=True), 'launch__twin', 'twin', 60,
                     meta={'fn': 'launch'}))
